@@ -174,3 +174,56 @@ Proof.
   - discriminate.
 Qed.
 Print Assumptions C04_root_mixed_refuted.
+
+(* ======================================================================== *)
+(* END TO END: the coordinates are the ones the read-side model gathers.
+   [gathered p d] = parent identity and parentref of every result of the
+   required query of Model/Eval.v (Proofs/EvalDelete.v: coord_of).  Whenever
+   those coordinates are in document order within each parent, each node once
+   (computable on the query's own answer; the harness evaluates it on the real
+   NodeCoords), deleting at the path removes exactly the gathered nodes. *)
+From YP Require Import PathParser Eval EvalDelete.
+
+Theorem C04_delete_exact_end_to_end_partial :
+  forall lit re_search nstr vstr kw_handler creator p d,
+    wf_doc d ->
+    doc_ordered d (map pc_pair (gathered lit re_search nstr vstr kw_handler creator p d)) = true ->
+    delete_nodes (map (fun c => CNode c false) (gathered lit re_search nstr vstr kw_handler creator p d)) d
+    = MDone (delete_spec d (map pc_pair (gathered lit re_search nstr vstr kw_handler creator p d))).
+Proof. exact delete_gathered_exact. Qed.
+Print Assumptions C04_delete_exact_end_to_end_partial.
+
+Definition e2e_lit (s : string) : outcome litres := Ok LFail.
+Definition e2e_re (_ _ : string) : outcome reres := Ok (RMatch false).
+Definition e2e_kw (_ : bool) (_ : keyword) (_ : string) (_ : rval) (_ : ctx) : gen rval := gnil.
+Definition e2e_cr (_ : list pseg) (_ : nat) (_ : rval) (_ : ctx) : gen rval := gnil.
+Definition e2e_gathered (text : string) (d : node) : list (option N * pyval) :=
+  match prepare 20 text with
+  | Ok p => map pc_pair (gathered e2e_lit e2e_re (fun _ => "") (fun _ => "") e2e_kw e2e_cr p d)
+  | _ => []
+  end.
+
+(* non-vacuity: a.* and a[1:3] style gathers on doc1 = {a: [1, [], 1, x], b: 5} *)
+Example C04_end_to_end_nonvacuous :
+  e2e_gathered "a.*" doc1 = [(Some 2%N, PInt 0); (Some 2%N, PInt 1); (Some 2%N, PInt 2); (Some 2%N, PInt 3)] /\
+  doc_ordered doc1 (e2e_gathered "a.*" doc1) = true /\
+  doc_ordered doc1 (e2e_gathered "**" doc1) = true /\
+  doc_ordered doc1 (e2e_gathered "a[.=1]" doc1) = true.
+Proof. vm_compute. repeat split. Qed.
+
+(* the guard is not implied by the fragment: a deep traversal followed by a
+   search on `.` meets a scalar twice -- as the child of the hash whose KEY
+   matches and as the scalar whose VALUE matches ({a: aa}, **[.^a]) -- and can
+   meet two children of one hash against document order ({a: b, b: zz},
+   **[.=b]: first zz under key b, then b under key a).  The documented meaning
+   (Spec/SpecC01.v) enumerates them the same way; the delete loop tolerates it
+   for hashes, so this is a limit of the guard, not a defect. *)
+Definition doc_dup : node := NMap (ct 0) [ (sk 1 "a", sk 2 "aa") ].
+Definition doc_rev : node := NMap (ct 0) [ (sk 1 "a", sk 2 "b"); (sk 2 "b", sk 3 "zz") ].
+Definition e2e_lit_str (s : string) : outcome litres := Ok LFail.
+Theorem C01_results_doc_ordered_refuted :
+  e2e_gathered "**[.^a]" doc_dup = [(Some 0%N, PStr "a"); (Some 0%N, PStr "a")] /\
+  doc_ordered doc_dup (e2e_gathered "**[.^a]" doc_dup) = false /\
+  e2e_gathered "**[.=b]" doc_rev = [(Some 0%N, PStr "b"); (Some 0%N, PStr "a")] /\
+  doc_ordered doc_rev (e2e_gathered "**[.=b]" doc_rev) = false.
+Proof. vm_compute. repeat split. Qed.
